@@ -12,8 +12,10 @@ package crypto
 //@   modifies nothing
 
 //@ # ASSUMED: public-key recovery and hashing do not modify program-visible memory (ECDSA/Keccak themselves are uninterpreted)
+//@ spec ecrec(hash string, sig string) string
 //@ func Ecrecover
 //@   trusted
+//@   ensures result1 == nil ==> bytestr(result0) == ecrec(bytestr(hash), bytestr(sig))
 //@   modifies nothing
 //@ func Keccak256
 //@   trusted
